@@ -251,6 +251,7 @@ class Program:
             self._index_module(m)
         for c in self.classes.values():
             self._resolve_bases(c)
+        self._apply_init_subclass_hooks()
         for m in self.modules.values():
             self.n_calls += sum(isinstance(n, ast.Call) for n in ast.walk(m.tree))
             for n in ast.walk(m.tree):
@@ -313,6 +314,14 @@ class Program:
                     parts = m.name.split(".")
                     base = ".".join(parts[: len(parts) - node.level + (1 if m.path.endswith("__init__.py") else 0)] + ([base] if base else []))
                 for a in node.names:
+                    if a.name == "*":
+                        # from package_module import *: every public name of that module, overriding what this module
+                        # bound above the statement (the later binding wins)
+                        for nm in self._star_names(base):
+                            m.imports[nm] = f"{base}.{nm}"
+                            m.star_imported = getattr(m, "star_imported", {})
+                            m.star_imported[nm] = (base, node.lineno)
+                        continue
                     m.imports.setdefault(a.asname or a.name, f"{base}.{a.name}")
             elif isinstance(node, (ast.FunctionDef, ast.AsyncFunctionDef)):
                 self._index_function(node, m, None, None, m.name)
@@ -347,6 +356,90 @@ class Program:
                                 ast.copy_location(sub, node.value)
                                 ast.fix_missing_locations(sub)
                                 m.constants[e.id] = sub
+
+    def _apply_init_subclass_hooks(self):
+        """`__init_subclass__` of a base class that wraps methods of its subclasses (`cls.m = wrap(cls.__dict__["m"])`,
+        `setattr(cls, "m", wrap(cls.m))`) is a decorator applied at class creation: it is recorded as a re-binding of
+        each subclass's own method, so that callers of the method get what the hook makes of it.  Anything else a hook
+        does to the class (loops over computed names, replaced attributes) is not modelled: the analysis stops."""
+        for base in list(self.classes.values()):
+            hook = base.methods.get("__init_subclass__")
+            if hook is None:
+                continue
+            wraps = []  # (method name, wrapper expression with the method as `__m__`, own_only)
+            for st in ast.walk(hook.node):
+                name = wexpr = None
+                if isinstance(st, ast.Assign) and len(st.targets) == 1 and isinstance(st.targets[0], ast.Attribute) and isinstance(st.targets[0].value, ast.Name) and st.targets[0].value.id == hook.params[0]:
+                    name, wexpr = st.targets[0].attr, st.value
+                elif isinstance(st, ast.Call) and isinstance(st.func, ast.Name) and st.func.id == "setattr" and len(st.args) == 3 and isinstance(st.args[0], ast.Name) and st.args[0].id == hook.params[0]:
+                    if isinstance(st.args[1], ast.Constant) and isinstance(st.args[1].value, str):
+                        name, wexpr = st.args[1].value, st.args[2]
+                    else:
+                        raise AnalysisError(f"{hook.qualname}: sets attributes of the subclass under computed names - not modelled")
+                if name is None:
+                    continue
+                cls_name = hook.params[0]
+                refs = (f"{cls_name}.__dict__['{name}']", f'{cls_name}.__dict__["{name}"]', f"{cls_name}.{name}", f"getattr({cls_name}, '{name}')", f'getattr({cls_name}, "{name}")', f"vars({cls_name})['{name}']")
+                src = ast.unparse(wexpr)
+                if not any(r in src for r in refs):
+                    raise AnalysisError(f"{hook.qualname}: replaces {name} of the subclass by something that is not built from it - not modelled")
+                for r in refs:
+                    src = src.replace(r, name)
+                own_only = f"'{name}' in {cls_name}.__dict__" in ast.unparse(hook.node) or f'"{name}" in {cls_name}.__dict__' in ast.unparse(hook.node).replace("'", '"')
+                wraps.append((name, ast.parse(src, mode="eval").body, own_only))
+            for name, expr, own_only in wraps:
+                for c in self.classes.values():
+                    if c is base or base not in c.mro():
+                        continue
+                    m = c.methods.get(name)
+                    if m is not None:
+                        m.rebinds.append(expr)
+                    elif not own_only:
+                        raise AnalysisError(f"{hook.qualname}: wraps the inherited {name} of {c.name} - not modelled")
+
+    def _star_names(self, modname):
+        """the names `from modname import *` binds, for a module of the package (else nothing)"""
+        src = self.modules.get(modname)
+        if src is None:
+            return []
+        names, explicit = [], None
+        for st in src.tree.body:
+            if isinstance(st, ast.Assign) and any(isinstance(t, ast.Name) and t.id == "__all__" for t in st.targets) and isinstance(st.value, (ast.List, ast.Tuple)):
+                explicit = [e.value for e in st.value.elts if isinstance(e, ast.Constant) and isinstance(e.value, str)]
+        if explicit is not None:
+            return explicit
+
+        def walk(stmts):
+            for st in stmts:
+                if isinstance(st, (ast.FunctionDef, ast.AsyncFunctionDef, ast.ClassDef)):
+                    names.append(st.name)
+                elif isinstance(st, ast.Assign):
+                    for t in st.targets:
+                        for e in ([t] if isinstance(t, ast.Name) else (t.elts if isinstance(t, (ast.Tuple, ast.List)) else [])):
+                            if isinstance(e, ast.Name):
+                                names.append(e.id)
+                elif isinstance(st, ast.AnnAssign) and isinstance(st.target, ast.Name):
+                    names.append(st.target.id)
+                elif isinstance(st, ast.Import):
+                    names.extend((a.asname or a.name.split(".")[0]) for a in st.names)
+                elif isinstance(st, ast.ImportFrom):
+                    names.extend((a.asname or a.name) for a in st.names if a.name != "*")
+                elif isinstance(st, ast.If):
+                    walk(st.body)
+                    walk(st.orelse)
+                elif isinstance(st, ast.Try):
+                    walk(st.body)
+                    for h in st.handlers:
+                        walk(h.body)
+                    walk(st.orelse)
+
+        walk(src.tree.body)
+        seen, out = set(), []
+        for n in names:
+            if not n.startswith("_") and n not in seen and n != "annotations":
+                seen.add(n)
+                out.append(n)
+        return out
 
     def _index_alternatives(self, m):
         """Names that the arms of one module-level `if / else` or `try / except` bind differently (a version gate, a
